@@ -202,6 +202,41 @@ fn case(t: &mut Tape, info: &mut CaseInfo) -> Result<(), String> {
     same("results under permuted setters", &calc_for_mode(&d1, &map, target)?, &calc_for_mode(&d2, &map, target)?)?;
     info.comparisons += 3;
 
+    // a refused mode switch hands the calculator back unchanged, settings and score included: an osu!-typed
+    // calculator on a map it cannot convert (another mode's map, or an osu! map flagged as a convert)
+    {
+        let mut foreign = map.clone();
+        if foreign.mode == GameMode::Osu {
+            foreign.is_convert = true;
+        }
+        let mut q = Performance::Osu(rosu_pp::osu::OsuPerformance::new(&foreign));
+        for s in &setters {
+            q = s.on_performance(q, GameMode::Osu);
+        }
+        let q = score.apply(q);
+        for other in [GameMode::Taiko, GameMode::Catch, GameMode::Mania] {
+            if foreign.convert_ref(other, &rosu_pp::GameMods::default()).is_ok() {
+                continue;
+            }
+            match q.clone().try_mode(other) {
+                Ok(_) => return Err(format!("try_mode({other:?}) succeeded on a map that cannot be converted")),
+                Err(back) => {
+                    if back != q {
+                        return Err(format!("try_mode({other:?}) refused the switch but handed back a different calculator: {back:?} vs {q:?}"));
+                    }
+                }
+            }
+            if q.clone().mode_or_ignore(other) != q {
+                return Err(format!("mode_or_ignore({other:?}) could not switch but changed the calculator"));
+            }
+            info.comparisons += 2;
+        }
+    }
+    // a clone carries every setting
+    #[allow(clippy::redundant_clone)]
+    if d.clone() != d {
+        return Err(format!("Difficulty::clone() differs from the original: {d:?} -> {:?}", d.clone()));
+    }
     // (c) inspect round trip
     let round = d.clone().inspect().into_difficulty();
     if round != d {
@@ -330,7 +365,7 @@ pub fn property() -> Property {
         id: "C18",
         subchecks: vec![SubCheck {
             name: "setters-equivalence",
-            rule: "G-MAP (all modes + converts, <=25 objects) x a generated list of 1-8 setter applications (mods in any representation, passed_objects, clock_rate incl. 0/-1/inf/1e300, ar/cs/hp/od with both flags incl. +-inf and far out of range, hardrock_offsets, lazer) x score spec x a generated permutation. Oracle: (a) Performance::<setters> == Performance::difficulty(Difficulty::<setters>) on all fields; (a') setters followed by difficulty(D') equal difficulty(D') alone (the Difficulty replaces every earlier setting); (b) any order of independent setters gives an == Difficulty and equal results, repeated setters: last wins; (c) inspect().into_difficulty() and InspectDifficulty::from round-trip to an == Difficulty, and an InspectDifficulty filled in by hand with the raw unclamped values converts to the same Difficulty as the setter chain; (d) inspect() shows clamp(clock,0.01,100) / clamp(value,-20,20) and results equal those of the clamped value; (e) setters documented as irrelevant for the mode (Difficulty/Performance ar+cs for taiko/mania, hardrock_offsets outside catch, lazer for taiko/catch; score setters combo for mania, n50 for taiko, n_katu/n_geki/tick setters outside their modes, priority for catch) leave results untouched; (f) the same Difficulty handed to GradualDifficulty / GradualPerformance: their last value's difficulty attributes equal the one-shot result (open taiko class skipped). Non-trivial: >=3 distinct setter kinds and an out-of-range value or an irrelevant setter.",
+            rule: "G-MAP (all modes + converts, <=25 objects) x a generated list of 1-8 setter applications (mods in any representation, passed_objects, clock_rate incl. 0/-1/inf/1e300, ar/cs/hp/od with both flags incl. +-inf and far out of range, hardrock_offsets, lazer) x score spec x a generated permutation. Oracle: (a) Performance::<setters> == Performance::difficulty(Difficulty::<setters>) on all fields; (a') setters followed by difficulty(D') equal difficulty(D') alone (the Difficulty replaces every earlier setting); (a'') a refused try_mode / mode_or_ignore on an osu!-typed calculator hands it back == unchanged; (b) any order of independent setters gives an == Difficulty and equal results, repeated setters: last wins; (c) inspect().into_difficulty() and InspectDifficulty::from round-trip to an == Difficulty, and an InspectDifficulty filled in by hand with the raw unclamped values converts to the same Difficulty as the setter chain; (d) inspect() shows clamp(clock,0.01,100) / clamp(value,-20,20) and results equal those of the clamped value; (e) setters documented as irrelevant for the mode (Difficulty/Performance ar+cs for taiko/mania, hardrock_offsets outside catch, lazer for taiko/catch; score setters combo for mania, n50 for taiko, n_katu/n_geki/tick setters outside their modes, priority for catch) leave results untouched; (f) the same Difficulty handed to GradualDifficulty / GradualPerformance: their last value's difficulty attributes equal the one-shot result (open taiko class skipped). Non-trivial: >=3 distinct setter kinds and an out-of-range value or an irrelevant setter.",
             quick: 10_000,
             thorough: 200_000,
             tape_len: 1300,
